@@ -1,0 +1,7 @@
+//go:build !verif
+
+package ringbuffer
+
+func (r *RingBuffer) verifEvent(_ string, _ any) {}
+
+func verifYield(_ string) {}
